@@ -77,6 +77,9 @@ func mkRecord(top gts.Topology, n int) gts.Sequence {
 	ff = ff.Insert(gts.Feature{Key: "misc_feature", Loc: gts.Range(8, 12), Props: gts.Props{{"note", "nested"}}})
 	// same outer bounds as the gene, different structure
 	ff = ff.Insert(gts.Feature{Key: "mRNA", Loc: gts.Join(gts.Range(3, 9), gts.Range(14, 20)), Props: gts.Props{{"gene", "a"}}})
+	// a forward feature that starts inside a reverse-strand one listed before it:
+	// the 5' ends of the located regions (40, then 30) are not in table order
+	ff = ff.Insert(gts.Feature{Key: "CDS", Loc: gts.Range(30, 38), Props: gts.Props{{"gene", "c"}}})
 	// two regions with the same 5' end
 	ff = ff.Insert(gts.Feature{Key: "regulatory", Loc: gts.Range(43, 52), Props: gts.Props{{"note", "r1"}}})
 	ff = ff.Insert(gts.Feature{Key: "regulatory", Loc: gts.Range(43, 47), Props: gts.Props{{"note", "r2"}}})
